@@ -4,7 +4,7 @@
 From Ark Require Import Model.Base Model.Mask Model.Pool Model.Util Model.World Model.Run.
 From Ark Require Import Proofs.TableProofs Proofs.UtilProofs Proofs.MaskProofs Proofs.WF Proofs.StorageA Proofs.StorageBDefs.
 From Ark Require Import Proofs.StorageB_sb3.
-From Ark Require Proofs.ObsProofs.
+From Ark Require Proofs.ObsProofs Proofs.StorageC.
 From RecordUpdate Require Import RecordSet.
 Import RecordSetNotations.
 From Coq Require Import Lia.
@@ -105,23 +105,36 @@ Definition r_any1 (idx : nat) (any : bool) (t : table) (s : W) : MW bool :=
       ret true
     else ret a1.
 
+(** The loop under an arbitrary clock: [clock idx] = "the time budget has expired when table [idx] has
+    just been processed". [r_go stop0] is the instance at the constant clock. *)
 Section RGo.
-Variable stop0 : bool.
-Fixpoint r_go (fuel : nat) (idx : nat) (any : bool) : MW (nat * bool) :=
+Variable clock : nat -> bool.
+Fixpoint r_go_clock (fuel : nat) (idx : nat) (any : bool) : MW (nat * bool) :=
   match fuel with
   | O => ret (idx, any)
   | S f =>
       t <- getT idx ;;
       s <- get ;;
       any1 <- r_any1 idx any t s ;;
-      if (any1 && stop0)%bool then ret (idx, any1)
-      else match f with O => ret (idx, any1) | _ => r_go f (S idx) any1 end
+      if (any1 && clock idx)%bool then ret (idx, any1)
+      else match f with O => ret (idx, any1) | _ => r_go_clock f (S idx) any1 end
   end.
 End RGo.
+
+Definition r_go (stop0 : bool) : nat -> nat -> bool -> MW (nat * bool) := r_go_clock (fun _ => stop0).
 
 Definition r_work (s : W) (t : table) : bool :=
   if negb (tbl_has_rels t) then tbl_can_shrink t (cf_cap (w_cfg s))
   else (tbl_can_shrink t (cf_caprel (w_cfg s)) || (negb (t_free t) && Nat.eqb (t_len t) 0))%bool.
+
+Lemma r_shrink_unfold_clock : forall clock,
+  w_shrink_clock clock =
+  (s <- get ;;
+   r <- r_go_clock clock (length (w_tables s)) 0 false ;;
+   let '(last, _) := r in
+   s <- get ;;
+   ret (existsb (r_work s) (skipn (S last) (w_tables s)))).
+Proof. intros. lazy delta [w_shrink_clock r_go_clock r_any1 r_work] beta. reflexivity. Qed.
 
 Lemma r_shrink_unfold : forall stop0,
   w_shrink_core stop0 =
@@ -130,7 +143,18 @@ Lemma r_shrink_unfold : forall stop0,
    let '(last, _) := r in
    s <- get ;;
    ret (existsb (r_work s) (skipn (S last) (w_tables s)))).
-Proof. intros. lazy delta [w_shrink_core r_go r_any1 r_work] beta. reflexivity. Qed.
+Proof. intros. unfold w_shrink_core, r_go. apply r_shrink_unfold_clock. Qed.
+
+Lemma r_shrink_eq_clock : forall clock s,
+  w_shrink_clock clock s =
+  match r_go_clock clock (length (w_tables s)) 0 false s with
+  | Ok r s' => Ok (existsb (r_work s') (skipn (S (fst r)) (w_tables s'))) s'
+  | Err e s' => Err e s'
+  end.
+Proof.
+  intros. rewrite r_shrink_unfold_clock. unfold bind, get, ret.
+  destruct (r_go_clock clock (length (w_tables s)) 0 false s) as [[last any'] s'|e s']; reflexivity.
+Qed.
 
 Lemma r_shrink_eq : forall stop0 s,
   w_shrink_core stop0 s =
@@ -138,10 +162,7 @@ Lemma r_shrink_eq : forall stop0 s,
   | Ok r s' => Ok (existsb (r_work s') (skipn (S (fst r)) (w_tables s'))) s'
   | Err e s' => Err e s'
   end.
-Proof.
-  intros. rewrite r_shrink_unfold. unfold bind, get, ret.
-  destruct (r_go stop0 (length (w_tables s)) 0 false s) as [[last any'] s'|e s']; reflexivity.
-Qed.
+Proof. intros. unfold w_shrink_core, r_go. apply r_shrink_eq_clock. Qed.
 
 (** What Shrink does to one relation-free table. *)
 Definition r_step (c : nat) (t : table) : table :=
@@ -180,6 +201,130 @@ Qed.
 
 Definition r_in (idx last j : nat) : bool := (Nat.leb idx j && Nat.leb j last)%bool.
 
+(** Some table among [lo..hi] of [s] can shrink. *)
+Definition r_found (s : W) (c lo hi : nat) : Prop :=
+  exists k t, lo <= k <= hi /\ nth_error (w_tables s) k = Some t /\ tbl_can_shrink t c = true.
+
+Lemma r_found_one : forall s c idx t, nth_error (w_tables s) idx = Some t ->
+  (r_found s c idx idx <-> tbl_can_shrink t c = true).
+Proof.
+  intros s c idx t Ht. split.
+  - intros (k & tk & Hk & Ek & Ck). assert (k = idx) by lia. subst k. rewrite Ht in Ek. inversion Ek; subst tk. exact Ck.
+  - intros C. exists idx, t. split; [lia|]. split; [exact Ht|exact C].
+Qed.
+
+Lemma r_found_split : forall s c idx hi t, nth_error (w_tables s) idx = Some t -> idx <= hi ->
+  (r_found s c idx hi <-> tbl_can_shrink t c = true \/ r_found s c (S idx) hi).
+Proof.
+  intros s c idx hi t Ht Hle. split.
+  - intros (k & tk & Hk & Ek & Ck). destruct (Nat.eq_dec k idx) as [->|Hne].
+    + rewrite Ht in Ek. inversion Ek; subst tk. left. exact Ck.
+    + right. exists k, tk. split; [lia|]. split; [exact Ek|exact Ck].
+  - intros [C|(k & tk & Hk & Ek & Ck)].
+    + exists idx, t. split; [lia|]. split; [exact Ht|exact C].
+    + exists k, tk. split; [lia|]. split; [exact Ek|exact Ck].
+Qed.
+
+Lemma r_found_ext : forall s s1 c lo hi,
+  (forall k, lo <= k -> nth_error (w_tables s1) k = nth_error (w_tables s) k) ->
+  (r_found s1 c lo hi <-> r_found s c lo hi).
+Proof.
+  intros s s1 c lo hi Hext. split; intros (k & tk & Hk & Ek & Ck); exists k, tk; (split; [exact Hk|]); (split; [|exact Ck]).
+  - rewrite <- Hext by lia. exact Ek.
+  - rewrite Hext by lia. exact Ek.
+Qed.
+
+(** The loop under an arbitrary clock, in a relation-free world: it processes the tables [idx..last] (each
+    one is brought to its target capacity), and [last] is exactly the first table after which the clock has
+    expired while some table had work (or the final table). *)
+Lemma r_go_spec_clock : forall clock c f idx any s,
+  cf_cap (w_cfg s) = c ->
+  (forall j t, nth_error (w_tables s) j = Some t -> tbl_has_rels t = false) ->
+  idx + S f = length (w_tables s) ->
+  exists last any' T',
+    r_go_clock clock (S f) idx any s = Ok (last, any') (s <| w_tables := T' |>) /\
+    length T' = length (w_tables s) /\ idx <= last < length (w_tables s) /\
+    (forall j, nth_error T' j = if r_in idx last j then option_map (r_step c) (nth_error (w_tables s) j)
+                                else nth_error (w_tables s) j) /\
+    (S last = length (w_tables s) \/ (any' = true /\ clock last = true)) /\
+    (any' = true <-> any = true \/ r_found s c idx last) /\
+    (forall j, idx <= j < last -> clock j = true -> any = false /\ ~ r_found s c idx j).
+Proof.
+  intros clock c f. induction f as [|f IH]; intros idx any s Hc Hnr Hlen.
+  - (* last table *)
+    destruct (nth_error (w_tables s) idx) as [t|] eqn:Ht; [|apply nth_error_None in Ht; lia].
+    cbn [r_go_clock]. rewrite (sa_bind_ok (sa_getT_eq _ _ _ Ht)).
+    unfold bind at 1, get at 1. cbv beta iota.
+    rewrite (sa_bind_ok (r_any1_eq idx any t s Ht (Hnr _ _ Ht))). rewrite Hc.
+    set (any1 := (tbl_can_shrink t c || any)%bool).
+    exists idx, any1, (upd idx (r_step c t) (w_tables s)).
+    split; [destruct (any1 && clock idx)%bool; reflexivity|].
+    split; [apply upd_length|]. split; [lia|].
+    split; [|split; [left; lia|split]].
+    + intros j. rewrite nth_error_upd. unfold r_in.
+      destruct (Nat.eqb_spec idx j) as [<-|Hne].
+      * rewrite Ht, !Nat.leb_refl. reflexivity.
+      * destruct (Nat.leb_spec idx j), (Nat.leb_spec j idx); simpl; try reflexivity; lia.
+    + rewrite (r_found_one s c idx t Ht). unfold any1. rewrite orb_true_iff. tauto.
+    + intros j Hj. lia.
+  - destruct (nth_error (w_tables s) idx) as [t|] eqn:Ht; [|apply nth_error_None in Ht; lia].
+    change (r_go_clock clock (S (S f)) idx any) with
+      (t <- getT idx ;; s <- get ;; any1 <- r_any1 idx any t s ;;
+       if (any1 && clock idx)%bool then ret (idx, any1) else r_go_clock clock (S f) (S idx) any1).
+    rewrite (sa_bind_ok (sa_getT_eq _ _ _ Ht)).
+    unfold bind at 1, get at 1. cbv beta iota.
+    rewrite (sa_bind_ok (r_any1_eq idx any t s Ht (Hnr _ _ Ht))). rewrite Hc.
+    set (any1 := (tbl_can_shrink t c || any)%bool).
+    assert (Hany1 : any1 = true <-> any = true \/ tbl_can_shrink t c = true).
+    { unfold any1. rewrite orb_true_iff. tauto. }
+    set (T1 := upd idx (r_step c t) (w_tables s)).
+    assert (HT1 : forall j, nth_error T1 j = if Nat.eqb idx j then Some (r_step c t) else nth_error (w_tables s) j).
+    { intros j. unfold T1. rewrite nth_error_upd. destruct (Nat.eqb_spec idx j) as [<-|]; [rewrite Ht|]; reflexivity. }
+    destruct (any1 && clock idx)%bool eqn:Hstop.
+    + (* the clock has expired and some table had work *)
+      exists idx, any1, T1. split; [reflexivity|]. split; [apply upd_length|]. split; [lia|].
+      apply andb_true_iff in Hstop. destruct Hstop as [Ha Hs].
+      split; [|split; [right; split; assumption|split]].
+      * intros j. rewrite HT1. unfold r_in.
+        destruct (Nat.eqb_spec idx j) as [<-|Hne].
+        -- rewrite Ht, !Nat.leb_refl. reflexivity.
+        -- destruct (Nat.leb_spec idx j), (Nat.leb_spec j idx); simpl; try reflexivity; lia.
+      * rewrite (r_found_one s c idx t Ht). exact Hany1.
+      * intros j Hj. lia.
+    + set (s1 := s <| w_tables := T1 |>).
+      destruct (IH (S idx) any1 s1) as (last & any' & T' & E & L & B & P & S0 & S1 & S2).
+      { exact Hc. }
+      { intros j t0 E0. change (w_tables s1) with T1 in E0. rewrite HT1 in E0.
+        destruct (Nat.eqb idx j).
+        - inversion E0; subst t0. rewrite r_step_has_rels. exact (Hnr _ _ Ht).
+        - exact (Hnr _ _ E0). }
+      { change (w_tables s1) with T1. unfold T1. rewrite upd_length. lia. }
+      assert (Hext : forall k, S idx <= k -> nth_error (w_tables s1) k = nth_error (w_tables s) k).
+      { intros k Hk. change (w_tables s1) with T1. rewrite HT1. destruct (Nat.eqb_spec idx k); [lia|reflexivity]. }
+      change (w_tables s1) with T1 in E, L, B, P, S0.
+      assert (LT1 : length T1 = length (w_tables s)) by apply upd_length.
+      exists last, any', T'. split; [exact E|]. split; [congruence|]. split; [lia|].
+      split; [|split; [|split]].
+      * intros j. rewrite P, HT1. unfold r_in.
+        destruct (Nat.eqb_spec idx j) as [<-|Hne].
+        -- rewrite Ht. destruct (Nat.leb_spec (S idx) idx); [lia|]. simpl.
+           rewrite Nat.leb_refl. destruct (Nat.leb_spec idx last); [reflexivity|lia].
+        -- destruct (Nat.leb_spec (S idx) j), (Nat.leb_spec idx j), (Nat.leb_spec j last); simpl; try reflexivity; lia.
+      * destruct S0 as [Hend|Hc']; [left; congruence|right; exact Hc'].
+      * rewrite S1, (r_found_ext s s1 c (S idx) last Hext), Hany1, (r_found_split s c idx last t Ht) by lia. tauto.
+      * intros j Hj Hcj. destruct (Nat.eq_dec j idx) as [->|Hne].
+        -- rewrite Hcj, andb_true_r in Hstop.
+           assert (Hn : ~ (any = true \/ tbl_can_shrink t c = true)) by (rewrite <- Hany1, Hstop; discriminate).
+           split; [destruct any; [exfalso; apply Hn; left; reflexivity|reflexivity]|].
+           rewrite (r_found_one s c idx t Ht). intros C. apply Hn. right. exact C.
+        -- destruct (S2 j) as (Ha1 & Hnf); [lia|exact Hcj|].
+           assert (Hn : ~ (any = true \/ tbl_can_shrink t c = true)) by (rewrite <- Hany1, Ha1; discriminate).
+           split; [destruct any; [exfalso; apply Hn; left; reflexivity|reflexivity]|].
+           rewrite (r_found_split s c idx j t Ht) by lia. intros [C|F]; [apply Hn; right; exact C|].
+           apply Hnf. apply (r_found_ext s s1 c (S idx) j Hext). exact F.
+Qed.
+
+(** The two extreme budgets (the statement used before the loop was generalised), as an instance. *)
 Lemma r_go_spec : forall stop0 c f idx any s,
   cf_cap (w_cfg s) = c ->
   (forall j t, nth_error (w_tables s) j = Some t -> tbl_has_rels t = false) ->
@@ -194,65 +339,14 @@ Lemma r_go_spec : forall stop0 c f idx any s,
        S last = length (w_tables s) \/
        exists t, nth_error (w_tables s) last = Some t /\ tbl_can_shrink t c = true).
 Proof.
-  intros stop0 c f. induction f as [|f IH]; intros idx any s Hc Hnr Hlen.
-  - (* last table *)
-    destruct (nth_error (w_tables s) idx) as [t|] eqn:Ht; [|apply nth_error_None in Ht; lia].
-    cbn [r_go]. rewrite (sa_bind_ok (sa_getT_eq _ _ _ Ht)).
-    unfold bind at 1, get at 1. cbv beta iota.
-    rewrite (sa_bind_ok (r_any1_eq idx any t s Ht (Hnr _ _ Ht))). rewrite Hc.
-    set (any1 := (tbl_can_shrink t c || any)%bool).
-    exists idx, any1, (upd idx (r_step c t) (w_tables s)).
-    split; [destruct (any1 && stop0)%bool; reflexivity|].
-    split; [apply upd_length|]. split; [lia|].
-    split; [|split; [intros; lia|intros; left; lia]].
-    intros j. rewrite nth_error_upd. unfold r_in.
-    destruct (Nat.eqb_spec idx j) as [<-|Hne].
-    + rewrite Ht, !Nat.leb_refl. reflexivity.
-    + destruct (Nat.leb_spec idx j), (Nat.leb_spec j idx); simpl; try reflexivity; lia.
-  - destruct (nth_error (w_tables s) idx) as [t|] eqn:Ht; [|apply nth_error_None in Ht; lia].
-    change (r_go stop0 (S (S f)) idx any) with
-      (t <- getT idx ;; s <- get ;; any1 <- r_any1 idx any t s ;;
-       if (any1 && stop0)%bool then ret (idx, any1) else r_go stop0 (S f) (S idx) any1).
-    rewrite (sa_bind_ok (sa_getT_eq _ _ _ Ht)).
-    unfold bind at 1, get at 1. cbv beta iota.
-    rewrite (sa_bind_ok (r_any1_eq idx any t s Ht (Hnr _ _ Ht))). rewrite Hc.
-    set (any1 := (tbl_can_shrink t c || any)%bool).
-    set (T1 := upd idx (r_step c t) (w_tables s)).
-    assert (HT1 : forall j, nth_error T1 j = if Nat.eqb idx j then Some (r_step c t) else nth_error (w_tables s) j).
-    { intros j. unfold T1. rewrite nth_error_upd. destruct (Nat.eqb_spec idx j) as [<-|]; [rewrite Ht|]; reflexivity. }
-    destruct (any1 && stop0)%bool eqn:Hstop.
-    + (* stop after the first table that had work *)
-      exists idx, any1, T1. split; [reflexivity|]. split; [apply upd_length|]. split; [lia|].
-      apply andb_true_iff in Hstop. destruct Hstop as [Ha Hs].
-      split; [|split; [intros; congruence|]].
-      * intros j. rewrite HT1. unfold r_in.
-        destruct (Nat.eqb_spec idx j) as [<-|Hne].
-        -- rewrite Ht, !Nat.leb_refl. reflexivity.
-        -- destruct (Nat.leb_spec idx j), (Nat.leb_spec j idx); simpl; try reflexivity; lia.
-      * intros _ Hany. right. exists t. split; [exact Ht|]. unfold any1 in Ha. rewrite Hany, orb_false_r in Ha. exact Ha.
-    + set (s1 := s <| w_tables := T1 |>).
-      destruct (IH (S idx) any1 s1) as (last & any' & T' & E & L & B & P & S0 & S1).
-      { exact Hc. }
-      { intros j t0 E0. change (w_tables s1) with T1 in E0. rewrite HT1 in E0.
-        destruct (Nat.eqb idx j).
-        - inversion E0; subst t0. rewrite r_step_has_rels. exact (Hnr _ _ Ht).
-        - exact (Hnr _ _ E0). }
-      { change (w_tables s1) with T1. unfold T1. rewrite upd_length. lia. }
-      change (w_tables s1) with T1 in *.
-      assert (LT1 : length T1 = length (w_tables s)) by apply upd_length.
-      exists last, any', T'. split; [exact E|]. split; [congruence|]. split; [lia|].
-      split; [|split].
-      * intros j. rewrite P, HT1. unfold r_in.
-        destruct (Nat.eqb_spec idx j) as [<-|Hne].
-        -- rewrite Ht. destruct (Nat.leb_spec (S idx) idx); [lia|]. simpl.
-           rewrite Nat.leb_refl. destruct (Nat.leb_spec idx last); [reflexivity|lia].
-        -- destruct (Nat.leb_spec (S idx) j), (Nat.leb_spec idx j), (Nat.leb_spec j last); simpl; try reflexivity; lia.
-      * intros Hs. rewrite <- LT1. auto.
-      * intros Hs Hany. assert (Ha1 : any1 = false).
-        { rewrite Hs, andb_true_r in Hstop. exact Hstop. }
-        destruct (S1 Hs Ha1) as [Hend|(t0 & E0 & C0)]; [left; congruence|].
-        right. exists t0. split; [|exact C0]. rewrite HT1 in E0.
-        destruct (Nat.eqb_spec idx last); [lia|exact E0].
+  intros stop0 c f idx any s Hc Hnr Hlen.
+  destruct (r_go_spec_clock (fun _ => stop0) c f idx any s Hc Hnr Hlen) as (last & any' & T' & E & L & B & P & S0 & S1 & S2).
+  exists last, any', T'. split; [exact E|]. split; [exact L|]. split; [exact B|]. split; [exact P|]. split.
+  - intros Hs. destruct S0 as [Hend|(_ & Hcl)]; [exact Hend|congruence].
+  - intros Hs Hany. destruct S0 as [Hend|(Ha & _)]; [left; exact Hend|right].
+    apply S1 in Ha. destruct Ha as [Ha|(k & t & Hk & Ek & Ck)]; [congruence|].
+    destruct (Nat.eq_dec k last) as [->|Hne]; [exists t; split; assumption|].
+    exfalso. destruct (S2 k) as (_ & Hnf); [lia|exact Hs|]. apply Hnf. exists k, t. split; [lia|]. split; assumption.
 Qed.
 
 (** Tables that look the same to every entity. *)
@@ -319,29 +413,30 @@ Proof.
       rewrite En. reflexivity.
 Qed.
 
-(** The shape of a Shrink run in a relation-free world. *)
-Lemma r_shrink_run : forall s stop0, St s ->
+(** The shape of a Shrink run in a relation-free world, under an arbitrary clock: the tables [0..last] are
+    brought to their target capacity, the others are untouched; [last] is the final table, or the first table
+    after which the clock has expired while one of the tables processed so far had work. *)
+Lemma r_shrink_run_clock : forall s clock, St s ->
   exists last T',
-    w_shrink_core stop0 s = Ok (existsb (fun t => tbl_can_shrink t (cf_cap (w_cfg s))) (skipn (S last) T'))
+    w_shrink_clock clock s = Ok (existsb (fun t => tbl_can_shrink t (cf_cap (w_cfg s))) (skipn (S last) T'))
                           (s <| w_tables := T' |>) /\
     length T' = length (w_tables s) /\ last < length (w_tables s) /\
     (forall j, nth_error T' j = if Nat.leb j last then option_map (r_step (cf_cap (w_cfg s))) (nth_error (w_tables s) j)
                                 else nth_error (w_tables s) j) /\
-    (stop0 = false -> S last = length (w_tables s)) /\
-    (stop0 = true -> S last = length (w_tables s) \/
-       exists t, nth_error (w_tables s) last = Some t /\ tbl_can_shrink t (cf_cap (w_cfg s)) = true).
+    (S last = length (w_tables s) \/ (clock last = true /\ r_found s (cf_cap (w_cfg s)) 0 last)) /\
+    (forall j, j < last -> clock j = true -> ~ r_found s (cf_cap (w_cfg s)) 0 j).
 Proof.
-  intros s stop0 (H & NR).
+  intros s clock (H & NR).
   assert (Hnr : forall j t, nth_error (w_tables s) j = Some t -> tbl_has_rels t = false).
   { intros j t E. destruct NR as (_ & N2 & _). destruct (N2 _ _ E) as (Hr & _). unfold tbl_has_rels. rewrite Hr. reflexivity. }
   destruct (wf_arch0 _ H) as (_ & _ & _ & t0 & Et0 & _).
   assert (HL : exists f, length (w_tables s) = S f).
   { destruct (w_tables s) as [|x l]; [discriminate Et0|]. exists (length l). reflexivity. }
   destruct HL as (f & HL).
-  destruct (r_go_spec stop0 (cf_cap (w_cfg s)) f 0 false s eq_refl Hnr) as (last & any' & T' & E & L & B & P & S0 & S1).
+  destruct (r_go_spec_clock clock (cf_cap (w_cfg s)) f 0 false s eq_refl Hnr) as (last & any' & T' & E & L & B & P & S0 & S1 & S2).
   { rewrite HL. reflexivity. }
   rewrite <- HL in E.
-  exists last, T'. rewrite r_shrink_eq, E. cbn [fst].
+  exists last, T'. rewrite r_shrink_eq_clock, E. cbn [fst].
   split.
   - f_equal. change (w_tables (s <| w_tables := T' |>)) with T'.
     assert (Hex : forall l : list table, (forall t, In t l -> tbl_has_rels t = false) ->
@@ -354,9 +449,32 @@ Proof.
     + destruct (nth_error (w_tables s) j) as [tj|] eqn:Etj; [|discriminate]. simpl in Ej. inversion Ej; subst t.
       rewrite r_step_has_rels. exact (Hnr _ _ Etj).
     + exact (Hnr _ _ Ej).
-  - split; [lia|]. split; [lia|]. split; [|split; [intros; rewrite S0 by assumption; reflexivity|]].
+  - split; [lia|]. split; [lia|]. split; [|split].
     + intros j. rewrite P. unfold r_in. reflexivity.
-    + intros Hs. destruct (S1 Hs eq_refl) as [Hend|Hw]; [left; lia|right; exact Hw].
+    + destruct S0 as [Hend|(Ha & Hcl)]; [left; exact Hend|right]. split; [exact Hcl|].
+      apply S1 in Ha. destruct Ha as [Ha|Hf]; [discriminate Ha|exact Hf].
+    + intros j Hj Hcj. destruct (S2 j) as (_ & Hnf); [lia|exact Hcj|exact Hnf].
+Qed.
+
+(** The two extreme budgets, as an instance. *)
+Lemma r_shrink_run : forall s stop0, St s ->
+  exists last T',
+    w_shrink_core stop0 s = Ok (existsb (fun t => tbl_can_shrink t (cf_cap (w_cfg s))) (skipn (S last) T'))
+                          (s <| w_tables := T' |>) /\
+    length T' = length (w_tables s) /\ last < length (w_tables s) /\
+    (forall j, nth_error T' j = if Nat.leb j last then option_map (r_step (cf_cap (w_cfg s))) (nth_error (w_tables s) j)
+                                else nth_error (w_tables s) j) /\
+    (stop0 = false -> S last = length (w_tables s)) /\
+    (stop0 = true -> S last = length (w_tables s) \/
+       exists t, nth_error (w_tables s) last = Some t /\ tbl_can_shrink t (cf_cap (w_cfg s)) = true).
+Proof.
+  intros s stop0 HSt.
+  destruct (r_shrink_run_clock s (fun _ => stop0) HSt) as (last & T' & E & L & B & P & S0 & S1).
+  exists last, T'. split; [exact E|]. split; [exact L|]. split; [exact B|]. split; [exact P|]. split.
+  - intros Hs. destruct S0 as [Hend|(Hcl & _)]; [exact Hend|congruence].
+  - intros Hs. destruct S0 as [Hend|(_ & k & t & Hk & Ek & Ck)]; [left; exact Hend|right].
+    destruct (Nat.eq_dec k last) as [->|Hne]; [exists t; split; assumption|].
+    exfalso. apply (S1 k); [lia|exact Hs|]. exists k, t. split; [lia|]. split; assumption.
 Qed.
 
 Lemma r_len_small : forall s j t, WF s -> nth_error (w_tables s) j = Some t -> t_len t <= Nat.pow 2 31.
@@ -364,15 +482,15 @@ Proof.
   intros s j t H E. pose proof (rows_le_pool s j t H E). pose proof (wf_small _ H). lia.
 Qed.
 
-(** Shrink (unbounded budget or zero budget) never changes entities, components, values; the world
-    stays well formed; it never fails; the lock, observers, filters and queries are untouched. *)
-Theorem shrink_invisible : forall s stop0, St s ->
-  exists b s', w_shrink_core stop0 s = Ok b s' /\ St s' /\ content_same s s' /\ w_pool s' = w_pool s /\
+(** Shrink under EVERY clock (hence every time budget) never changes entities, components, values; the
+    world stays well formed; it never fails; the lock, observers, filters and queries are untouched. *)
+Theorem shrink_invisible_clock : forall s clock, St s ->
+  exists b s', w_shrink_clock clock s = Ok b s' /\ St s' /\ content_same s s' /\ w_pool s' = w_pool s /\
                w_index s' = w_index s /\ side_same s s' /\ frame_user s s' /\ w_archs s' = w_archs s /\
                length (w_tables s') = length (w_tables s).
 Proof.
-  intros s stop0 HSt. pose proof HSt as (H & NR).
-  destruct (r_shrink_run s stop0 HSt) as (last & T' & E & L & B & P & _).
+  intros s clock HSt. pose proof HSt as (H & NR).
+  destruct (r_shrink_run_clock s clock HSt) as (last & T' & E & L & B & P & _).
   eexists _, _. split; [exact E|].
   destruct (r_sim_St s T' HSt L) as (HSt' & HC).
   { intros j t Ej. pose proof (P j) as Pj. rewrite Ej in Pj.
@@ -387,6 +505,62 @@ Proof.
   split; [reflexivity|exact L].
 Qed.
 
+(** Shrink (unbounded budget or zero budget): the instance at the constant clocks. *)
+Theorem shrink_invisible : forall s stop0, St s ->
+  exists b s', w_shrink_core stop0 s = Ok b s' /\ St s' /\ content_same s s' /\ w_pool s' = w_pool s /\
+               w_index s' = w_index s /\ side_same s s' /\ frame_user s s' /\ w_archs s' = w_archs s /\
+               length (w_tables s') = length (w_tables s).
+Proof. intros s stop0 HSt. exact (shrink_invisible_clock s (fun _ => stop0) HSt). Qed.
+
+(** Capacity bounds under every clock. The walk processes the tables [0..last], where [last] is the final
+    table or a table after which the clock had expired; every processed table ends with
+    len <= cap <= max(initial capacity, next power of two of len); a walk that reached the final table
+    reports no remaining work; and whenever Shrink reports no remaining work, EVERY table is within these
+    bounds (whatever the clock did). *)
+Theorem shrink_capacity_bounds_clock : forall s clock, St s ->
+  exists last b s', w_shrink_clock clock s = Ok b s' /\ last < length (w_tables s) /\
+    (S last = length (w_tables s) \/ clock last = true) /\
+    (S last = length (w_tables s) -> b = false) /\
+    (forall tid t, tid <= last -> nth_error (w_tables s') tid = Some t ->
+       t_len t <= t_cap t /\ t_cap t <= Nat.max (cf_cap (w_cfg s)) (cap_pow2 (t_len t))) /\
+    (b = false -> forall tid t, nth_error (w_tables s') tid = Some t ->
+       t_len t <= t_cap t /\ t_cap t <= Nat.max (cf_cap (w_cfg s)) (cap_pow2 (t_len t))).
+Proof.
+  intros s clock HSt. pose proof HSt as (H & NR).
+  destruct (r_shrink_run_clock s clock HSt) as (last & T' & E & L & B & P & S0 & _).
+  set (c := cf_cap (w_cfg s)) in *.
+  assert (Hdone : forall tid t', tid <= last -> nth_error T' tid = Some t' ->
+            t_len t' <= t_cap t' /\ t_cap t' <= Nat.max c (cap_pow2 (t_len t'))).
+  { intros tid t' Hle E'. rewrite P in E'. destruct (Nat.leb_spec tid last); [|lia].
+    destruct (nth_error (w_tables s) tid) as [t|] eqn:Et; [|discriminate]. simpl in E'. inversion E'; subst t'.
+    assert (Ok_t : tbl_ok t) by (apply (proj1 (Forall_nth_error _ _ _) (wf_tables _ H) _ _ Et)).
+    pose proof (r_len_small s tid t H Et) as Hs.
+    destruct (r_tsim_step c t Ok_t Hs) as (O' & L' & _).
+    split; [apply tbl_ok_elim in O'; apply O'|].
+    rewrite L'. unfold r_step. destruct (tbl_can_shrink t c) eqn:C.
+    + destruct (tbl_adjust_len t (tbl_shrink_target t c)) as [_ Cc]. rewrite Cc.
+      unfold tbl_shrink_target. rewrite Nat.max_comm. apply Nat.le_refl.
+    + unfold tbl_can_shrink in C. apply Nat.ltb_ge in C. unfold tbl_shrink_target in C.
+      rewrite Nat.max_comm. exact C. }
+  exists last, (existsb (fun t => tbl_can_shrink t c) (skipn (S last) T')), (s <| w_tables := T' |>).
+  split; [exact E|]. split; [exact B|].
+  split; [destruct S0 as [Hend|(Hcl & _)]; [left; exact Hend|right; exact Hcl]|].
+  split; [intros Hend; rewrite Hend, <- L, skipn_all; reflexivity|].
+  change (w_tables (s <| w_tables := T' |>)) with T'.
+  split; [exact Hdone|].
+  intros Hb tid t' E'. destruct (Nat.le_gt_cases tid last) as [Hle|Hgt]; [exact (Hdone tid t' Hle E')|].
+  assert (Hin : In t' (skipn (S last) T')) by (apply r_in_skipn; exists tid; split; [lia|exact E']).
+  rewrite P in E'. destruct (Nat.leb_spec tid last); [lia|].
+  assert (Ok_t : tbl_ok t') by (apply (proj1 (Forall_nth_error _ _ _) (wf_tables _ H) _ _ E')).
+  split; [apply tbl_ok_elim in Ok_t; apply Ok_t|].
+  destruct (tbl_can_shrink t' c) eqn:C.
+  - exfalso. assert (Hex : existsb (fun t => tbl_can_shrink t c) (skipn (S last) T') = true).
+    { apply existsb_exists. exists t'. split; [exact Hin|exact C]. }
+    rewrite Hb in Hex. discriminate Hex.
+  - unfold tbl_can_shrink in C. apply Nat.ltb_ge in C. unfold tbl_shrink_target in C.
+    rewrite Nat.max_comm. exact C.
+Qed.
+
 (** After an unbounded Shrink every table's capacity is at least its size and at most the larger of
     the initial capacity and the next power of two of its size; and Shrink reports no remaining work. *)
 Theorem shrink_capacity_bounds : forall s, St s ->
@@ -394,37 +568,23 @@ Theorem shrink_capacity_bounds : forall s, St s ->
   forall tid t, nth_error (w_tables s') tid = Some t ->
     t_len t <= t_cap t /\ t_cap t <= Nat.max (cf_cap (w_cfg s)) (cap_pow2 (t_len t)).
 Proof.
-  intros s HSt. pose proof HSt as (H & NR).
-  destruct (r_shrink_run s false HSt) as (last & T' & E & L & B & P & S0 & _).
-  specialize (S0 eq_refl).
-  exists (s <| w_tables := T' |>). split.
-  - rewrite E. f_equal. rewrite S0, <- L, skipn_all. reflexivity.
-  - intros tid t' E'. change (w_tables (s <| w_tables := T' |>)) with T' in E'.
-    assert (Hlt : tid < length T') by (apply nth_error_Some; congruence).
-    rewrite P in E'. destruct (Nat.leb_spec tid last); [|lia].
-    destruct (nth_error (w_tables s) tid) as [t|] eqn:Et; [|discriminate]. simpl in E'. inversion E'; subst t'.
-    assert (Ok_t : tbl_ok t) by (apply (proj1 (Forall_nth_error _ _ _) (wf_tables _ H) _ _ Et)).
-    pose proof (r_len_small s tid t H Et) as Hs.
-    destruct (r_tsim_step (cf_cap (w_cfg s)) t Ok_t Hs) as (O' & L' & _).
-    split; [apply tbl_ok_elim in O'; apply O'|].
-    rewrite L'. unfold r_step. destruct (tbl_can_shrink t (cf_cap (w_cfg s))) eqn:C.
-    + destruct (tbl_adjust_len t (tbl_shrink_target t (cf_cap (w_cfg s)))) as [_ Cc]. rewrite Cc.
-      unfold tbl_shrink_target. rewrite Nat.max_comm. apply Nat.le_refl.
-    + unfold tbl_can_shrink in C. apply Nat.ltb_ge in C. unfold tbl_shrink_target in C.
-      rewrite Nat.max_comm. exact C.
+  intros s HSt.
+  destruct (shrink_capacity_bounds_clock s (fun _ => false) HSt) as (last & b & s' & E & _ & S0 & Hb & _ & Hall).
+  assert (Eb : b = false) by (apply Hb; destruct S0 as [Hend|Hcl]; [exact Hend|discriminate Hcl]).
+  subst b. exists s'. split; [exact E|exact (Hall eq_refl)].
 Qed.
 
-(** A zero-budget Shrink returns [true] only if some table can still shrink afterwards, and [false]
-    only if none can; repeated calls terminate: each call that does work reduces the number of
-    tables that can shrink. *)
+(** Under every clock Shrink returns [true] only if some table can still shrink afterwards, and [false]
+    only if none can; repeated calls terminate: each call that finds work reduces the number of
+    tables that can shrink, whatever its time budget and whatever the clock does. *)
 Definition shrinkable (s : W) : nat :=
   length (filter (fun t => tbl_can_shrink t (cf_cap (w_cfg s))) (w_tables s)).
 
-Theorem shrink_result_exact : forall s stop0, St s ->
-  exists b s', w_shrink_core stop0 s = Ok b s' /\ (b = true <-> 0 < shrinkable s') .
+Theorem shrink_result_exact_clock : forall s clock, St s ->
+  exists b s', w_shrink_clock clock s = Ok b s' /\ (b = true <-> 0 < shrinkable s') .
 Proof.
-  intros s stop0 HSt.
-  destruct (r_shrink_run s stop0 HSt) as (last & T' & E & L & B & P & _).
+  intros s clock HSt.
+  destruct (r_shrink_run_clock s clock HSt) as (last & T' & E & L & B & P & _).
   eexists _, _. split; [exact E|].
   unfold shrinkable. change (w_tables (s <| w_tables := T' |>)) with T'.
   change (w_cfg (s <| w_tables := T' |>)) with (w_cfg s).
@@ -438,32 +598,53 @@ Proof.
     rewrite r_step_noshrink in Hx. discriminate.
 Qed.
 
-Theorem shrink_converges : forall s, St s -> 0 < shrinkable s ->
-  exists b s', w_shrink_core true s = Ok b s' /\ shrinkable s' < shrinkable s.
+Theorem shrink_result_exact : forall s stop0, St s ->
+  exists b s', w_shrink_core stop0 s = Ok b s' /\ (b = true <-> 0 < shrinkable s') .
+Proof. intros s stop0 HSt. exact (shrink_result_exact_clock s (fun _ => stop0) HSt). Qed.
+
+(** Progress under every clock: no call ever makes a table shrinkable, and a call on a world with
+    shrinkable tables does the work of at least one of them - the stop test is only evaluated after a
+    table had work ([any1 && clock idx]), so not even a clock that has "always expired" can starve it. *)
+Theorem shrink_progress_clock : forall s clock, St s ->
+  exists b s', w_shrink_clock clock s = Ok b s' /\ shrinkable s' <= shrinkable s /\
+               (0 < shrinkable s -> shrinkable s' < shrinkable s).
 Proof.
-  intros s HSt Hpos.
-  destruct (r_shrink_run s true HSt) as (last & T' & E & L & B & P & _ & S1).
-  specialize (S1 eq_refl).
+  intros s clock HSt.
+  destruct (r_shrink_run_clock s clock HSt) as (last & T' & E & L & B & P & S0 & _).
   eexists _, _. split; [exact E|].
   unfold shrinkable in *. change (w_tables (s <| w_tables := T' |>)) with T'.
   change (w_cfg (s <| w_tables := T' |>)) with (w_cfg s).
   set (c := cf_cap (w_cfg s)) in *.
-  apply r_count_lt; [exact L| |].
-  - intros j x' Ej Hx. rewrite P in Ej. destruct (Nat.leb_spec j last).
+  assert (Hkeep : forall j x', nth_error T' j = Some x' -> tbl_can_shrink x' c = true ->
+            exists x, nth_error (w_tables s) j = Some x /\ tbl_can_shrink x c = true).
+  { intros j x' Ej Hx. rewrite P in Ej. destruct (Nat.leb_spec j last).
     + exfalso. destruct (nth_error (w_tables s) j) as [t|]; [|discriminate]. simpl in Ej. inversion Ej; subst x'.
       rewrite r_step_noshrink in Hx. discriminate.
-    + exists x'. auto.
-  - assert (W : exists j t, j <= last /\ nth_error (w_tables s) j = Some t /\ tbl_can_shrink t c = true).
-    { destruct S1 as [Hend|(t & Et & Ct)].
-      - apply r_filter_pos in Hpos. destruct Hpos as (t & Hin & Ct).
-        apply In_nth_error in Hin. destruct Hin as (j & Ej). exists j, t.
-        assert (j < length (w_tables s)) by (apply nth_error_Some; congruence).
-        split; [lia|auto].
-      - exists last, t. auto. }
-    destruct W as (j & t & Hj & Et & Ct).
-    exists j, t, (r_step c t). split; [exact Et|]. split; [exact Ct|]. split; [|apply r_step_noshrink].
-    rewrite P, Et. destruct (Nat.leb_spec j last); [reflexivity|lia].
+    + exists x'. auto. }
+  split; [apply r_count_le; [exact L|exact Hkeep]|].
+  intros Hpos. apply r_count_lt; [exact L|exact Hkeep|].
+  assert (W : exists j t, j <= last /\ nth_error (w_tables s) j = Some t /\ tbl_can_shrink t c = true).
+  { destruct S0 as [Hend|(_ & k & t & Hk & Et & Ct)].
+    - apply r_filter_pos in Hpos. destruct Hpos as (t & Hin & Ct).
+      apply In_nth_error in Hin. destruct Hin as (j & Ej). exists j, t.
+      assert (j < length (w_tables s)) by (apply nth_error_Some; congruence).
+      split; [lia|auto].
+    - exists k, t. split; [lia|auto]. }
+  destruct W as (j & t & Hj & Et & Ct).
+  exists j, t, (r_step c t). split; [exact Et|]. split; [exact Ct|]. split; [|apply r_step_noshrink].
+  rewrite P, Et. destruct (Nat.leb_spec j last); [reflexivity|lia].
 Qed.
+
+Theorem shrink_converges_clock : forall s clock, St s -> 0 < shrinkable s ->
+  exists b s', w_shrink_clock clock s = Ok b s' /\ shrinkable s' < shrinkable s.
+Proof.
+  intros s clock HSt Hpos. destruct (shrink_progress_clock s clock HSt) as (b & s' & E & _ & Hlt).
+  exists b, s'. split; [exact E|exact (Hlt Hpos)].
+Qed.
+
+Theorem shrink_converges : forall s, St s -> 0 < shrinkable s ->
+  exists b s', w_shrink_core true s = Ok b s' /\ shrinkable s' < shrinkable s.
+Proof. intros s HSt Hpos. exact (shrink_converges_clock s (fun _ => true) HSt Hpos). Qed.
 
 (** ** Reset *)
 
@@ -519,6 +700,200 @@ Proof.
   intros s stop0 b s' HSt Hl E. destruct (shrink_invisible_w s stop0 HSt Hl) as (b1 & s1 & E1 & _ & _ & _ & _ & SS & _).
   rewrite E in E1. inversion E1; subst b1 s1. unfold side_same in SS. unfold is_locked in *.
   replace (w_lock s') with (w_lock s); [exact Hl|]. symmetry. apply SS.
+Qed.
+
+(** *** World.Shrink with an arbitrary time budget read off an arbitrary clock: [w_shrink_timed clock] =
+    lock check + [w_shrink_clock clock]. [w_shrink stop0] is [w_shrink_timed (fun _ => stop0)]. *)
+Theorem shrink_timed_const : forall stop0, w_shrink stop0 = w_shrink_timed (fun _ => stop0).
+Proof. reflexivity. Qed.
+
+Theorem shrink_locked_rejected_clock : forall s clock, is_locked s = true -> w_shrink_timed clock s = Err ELocked s.
+Proof.
+  intros s clock H. unfold w_shrink_timed. apply sa_bind_err.
+  unfold check_locked, bind, get, guard. rewrite H. reflexivity.
+Qed.
+
+Theorem shrink_unlocked_eq_clock : forall s clock, is_locked s = false -> w_shrink_timed clock s = w_shrink_clock clock s.
+Proof. intros s clock H. unfold w_shrink_timed. rewrite (sa_bind_ok (r_check_unlocked s H)). reflexivity. Qed.
+
+Theorem shrink_invisible_clock_w : forall s clock, St s -> is_locked s = false ->
+  exists b s', w_shrink_timed clock s = Ok b s' /\ St s' /\ content_same s s' /\ w_pool s' = w_pool s /\
+               w_index s' = w_index s /\ side_same s s' /\ frame_user s s' /\ w_archs s' = w_archs s /\
+               length (w_tables s') = length (w_tables s).
+Proof. intros s clock HSt Hl. rewrite (shrink_unlocked_eq_clock s clock Hl). apply shrink_invisible_clock. exact HSt. Qed.
+
+Theorem shrink_capacity_bounds_clock_w : forall s clock, St s -> is_locked s = false ->
+  exists last b s', w_shrink_timed clock s = Ok b s' /\ last < length (w_tables s) /\
+    (S last = length (w_tables s) \/ clock last = true) /\
+    (S last = length (w_tables s) -> b = false) /\
+    (forall tid t, tid <= last -> nth_error (w_tables s') tid = Some t ->
+       t_len t <= t_cap t /\ t_cap t <= Nat.max (cf_cap (w_cfg s)) (cap_pow2 (t_len t))) /\
+    (b = false -> forall tid t, nth_error (w_tables s') tid = Some t ->
+       t_len t <= t_cap t /\ t_cap t <= Nat.max (cf_cap (w_cfg s)) (cap_pow2 (t_len t))).
+Proof. intros s clock HSt Hl. rewrite (shrink_unlocked_eq_clock s clock Hl). apply shrink_capacity_bounds_clock. exact HSt. Qed.
+
+Theorem shrink_result_exact_clock_w : forall s clock, St s -> is_locked s = false ->
+  exists b s', w_shrink_timed clock s = Ok b s' /\ (b = true <-> 0 < shrinkable s').
+Proof. intros s clock HSt Hl. rewrite (shrink_unlocked_eq_clock s clock Hl). apply shrink_result_exact_clock. exact HSt. Qed.
+
+Theorem shrink_progress_clock_w : forall s clock, St s -> is_locked s = false ->
+  exists b s', w_shrink_timed clock s = Ok b s' /\ shrinkable s' <= shrinkable s /\
+               (0 < shrinkable s -> shrinkable s' < shrinkable s).
+Proof. intros s clock HSt Hl. rewrite (shrink_unlocked_eq_clock s clock Hl). apply shrink_progress_clock. exact HSt. Qed.
+
+Theorem shrink_converges_clock_w : forall s clock, St s -> is_locked s = false -> 0 < shrinkable s ->
+  exists b s', w_shrink_timed clock s = Ok b s' /\ shrinkable s' < shrinkable s.
+Proof. intros s clock HSt Hl Hp. rewrite (shrink_unlocked_eq_clock s clock Hl). apply shrink_converges_clock; assumption. Qed.
+
+Theorem shrink_keeps_unlocked_clock : forall s clock b s', St s -> is_locked s = false ->
+  w_shrink_timed clock s = Ok b s' -> is_locked s' = false.
+Proof.
+  intros s clock b s' HSt Hl E. destruct (shrink_invisible_clock_w s clock HSt Hl) as (b1 & s1 & E1 & _ & _ & _ & _ & SS & _).
+  rewrite E in E1. inversion E1; subst b1 s1. unfold side_same in SS. unfold is_locked in *.
+  replace (w_lock s') with (w_lock s); [exact Hl|]. symmetry. apply SS.
+Qed.
+
+(** Everything one call guarantees, in one statement (the step of the induction below). *)
+Lemma r_shrink_timed_step : forall s clock, St s -> is_locked s = false ->
+  exists b s', w_shrink_timed clock s = Ok b s' /\ St s' /\ is_locked s' = false /\ content_same s s' /\
+    w_pool s' = w_pool s /\ w_index s' = w_index s /\ side_same s s' /\ frame_user s s' /\ w_archs s' = w_archs s /\
+    length (w_tables s') = length (w_tables s) /\
+    (b = true <-> 0 < shrinkable s') /\ shrinkable s' <= shrinkable s /\ (0 < shrinkable s -> shrinkable s' < shrinkable s).
+Proof.
+  intros s clock HSt Hl.
+  destruct (shrink_invisible_clock_w s clock HSt Hl) as (b & s' & E & I1 & I2 & I3 & I4 & I5 & I6 & I7 & I8).
+  destruct (shrink_result_exact_clock_w s clock HSt Hl) as (b2 & s2 & E2 & X).
+  destruct (shrink_progress_clock_w s clock HSt Hl) as (b3 & s3 & E3 & P1 & P2).
+  rewrite E in E2, E3. inversion E2; subst b2 s2. inversion E3; subst b3 s3.
+  exists b, s'. split; [exact E|]. split; [exact I1|].
+  split; [exact (shrink_keeps_unlocked_clock s clock b s' HSt Hl E)|].
+  repeat (split; [assumption|]). exact P2.
+Qed.
+
+(** A caller's loop of time-boxed calls, one clock per call: call Shrink while it reports remaining work
+    (Go: [for w.Shrink(budget) {}]), at most once per element of [clocks]; the result is the number of
+    calls that reported remaining work. *)
+Fixpoint shrink_calls (clocks : list (nat -> bool)) : MW nat :=
+  match clocks with
+  | [] => ret 0
+  | clock :: rest => b <- w_shrink_timed clock ;; if b then n <- shrink_calls rest ;; ret (S n) else ret 0
+  end.
+
+Lemma r_content_trans : forall a b c, content_same a b -> content_same b c -> content_same a c.
+Proof.
+  intros a b c H1 H2 x. destruct (H1 x) as (A1 & B1). destruct (H2 x) as (A2 & B2).
+  split; [congruence|]. intros k. rewrite B2, B1. reflexivity.
+Qed.
+
+(** Convergence for every sequence of budgets and clocks: the loop never fails, is invisible as a whole,
+    every call that reports remaining work has made at least one more table unshrinkable
+    ([n + shrinkable s' <= shrinkable s], so at most [shrinkable s] calls report remaining work), and if it
+    ended before the clocks ran out, nothing is left to shrink. *)
+Theorem shrink_converges_clocks : forall clocks s, St s -> is_locked s = false ->
+  exists n s', shrink_calls clocks s = Ok n s' /\ n <= length clocks /\ n + shrinkable s' <= shrinkable s /\
+    (n < length clocks -> shrinkable s' = 0) /\
+    St s' /\ is_locked s' = false /\ content_same s s' /\ w_pool s' = w_pool s /\ w_index s' = w_index s /\
+    side_same s s' /\ frame_user s s' /\ w_archs s' = w_archs s /\ length (w_tables s') = length (w_tables s).
+Proof.
+  induction clocks as [|clock rest IH]; intros s HSt Hl.
+  - exists 0, s. split; [reflexivity|]. cbn [length]. split; [lia|]. split; [lia|]. split; [lia|].
+    split; [exact HSt|]. split; [exact Hl|]. split; [intros x; split; [reflexivity|intros; reflexivity]|].
+    split; [reflexivity|]. split; [reflexivity|]. split; [apply sa_side_same_refl|]. split; [apply sa_frame_user_refl|].
+    split; reflexivity.
+  - destruct (r_shrink_timed_step s clock HSt Hl) as (b & s1 & E & I1 & I2 & I3 & I4 & I5 & I6 & I7 & I8 & I9 & X & P1 & P2).
+    cbn [shrink_calls length]. rewrite (sa_bind_ok E). destruct b.
+    + destruct (IH s1 I1 I2) as (n & s' & E' & N1 & N2 & N3 & J1 & J2 & J3 & J4 & J5 & J6 & J7 & J8 & J9).
+      assert (Hpos1 : 0 < shrinkable s1) by (apply X; reflexivity).
+      assert (Hlt : shrinkable s1 < shrinkable s) by (apply P2; lia).
+      exists (S n), s'. split; [rewrite (sa_bind_ok E'); reflexivity|].
+      split; [lia|]. split; [lia|]. split; [intros Hn; apply N3; lia|].
+      split; [exact J1|]. split; [exact J2|]. split; [exact (r_content_trans _ _ _ I3 J3)|].
+      split; [congruence|]. split; [congruence|]. split; [exact (sa_side_same_trans _ _ _ I6 J6)|].
+      split; [exact (sa_frame_user_trans _ _ _ I7 J7)|]. split; congruence.
+    + assert (Hz : shrinkable s1 = 0).
+      { destruct (shrinkable s1) as [|k] eqn:Ek; [reflexivity|]. exfalso.
+        assert (Hb : false = true) by (apply X; lia). discriminate Hb. }
+      exists 0, s1. split; [reflexivity|]. split; [lia|]. split; [lia|]. split; [intros _; exact Hz|].
+      repeat (split; [assumption|]). exact I9.
+Qed.
+
+(** Hence: with at least [shrinkable s] calls available - whatever their budgets, whatever the clocks - the
+    loop ends with nothing left to shrink, after at most [shrinkable s] calls that reported remaining work. *)
+Corollary shrink_converges_clocks_done : forall clocks s, St s -> is_locked s = false ->
+  shrinkable s <= length clocks ->
+  exists n s', shrink_calls clocks s = Ok n s' /\ n <= shrinkable s /\ shrinkable s' = 0 /\ St s' /\
+               is_locked s' = false /\ content_same s s'.
+Proof.
+  intros clocks s HSt Hl Hlen.
+  destruct (shrink_converges_clocks clocks s HSt Hl) as (n & s' & E & N1 & N2 & N3 & J1 & J2 & J3 & _).
+  exists n, s'. split; [exact E|]. split; [lia|]. split; [|split; [exact J1|split; [exact J2|exact J3]]].
+  destruct (Nat.lt_ge_cases n (length clocks)) as [Hn|Hn]; [exact (N3 Hn)|lia].
+Qed.
+
+(** Non-vacuity. A reachable relation-free world with four tables, three of which can shrink (three entities
+    created and two removed in each of three archetypes), and clocks that are neither of the two extremes:
+    one expires exactly after table 1, one has expired at every table but table 2 (not monotone). *)
+Definition r_ex_cfg : script_cfg :=
+  {| sc_cap := 1; sc_caprel := 1; sc_bits := 256; sc_debug := false; sc_kinds := map kind_of_code [0; 1]%Z |}.
+Definition r_ex_lines : list (list Z) :=
+  [[1; 1; 0]; [1; 1; 0]; [1; 1; 0]; [1; 1; 1]; [1; 1; 1]; [1; 1; 1]; [1; 2; 0; 1]; [1; 2; 0; 1]; [1; 2; 0; 1];
+   [11; 0]; [11; 1]; [11; 3]; [11; 4]; [11; 6]; [11; 7]]%Z.
+Definition r_ex_world : W := StorageC.run_core r_ex_cfg r_ex_lines.
+Definition r_ex_clock1 : nat -> bool := fun j => Nat.eqb j 1.
+Definition r_ex_clock2 : nat -> bool := fun j => negb (Nat.eqb j 2).
+Definition r_ex_caps (s : W) : list (nat * nat) := map (fun t => (t_len t, t_cap t)) (w_tables s).
+
+Lemma r_ex_pow31 : 64 < Nat.pow 2 31.
+Proof.
+  change 31 with (7 + 24). rewrite Nat.pow_add_r.
+  assert (H : 0 < Nat.pow 2 24) by (apply Nat.neq_0_lt_0, Nat.pow_nonzero; discriminate).
+  change (Nat.pow 2 7) with 128. set (P := Nat.pow 2 24) in *. clearbody P. lia.
+Qed.
+
+Example r_ex_world_ok : St r_ex_world /\ is_locked r_ex_world = false /\ shrinkable r_ex_world = 3 /\
+  r_ex_caps r_ex_world = [(0, 1); (1, 4); (1, 4); (1, 4)].
+Proof.
+  split; [|split; [|split]]; [|vm_compute; reflexivity..].
+  apply (StorageC.reachable_inv r_ex_cfg r_ex_lines).
+  - split; [cbn; lia|]. split; [cbn; lia|]. split; [cbn; lia|]. repeat constructor.
+  - repeat constructor; eexists; (split; [vm_compute; reflexivity|]); (split; [reflexivity|]);
+      intros c Hc; cbn in Hc; cbn; lia.
+  - pose proof r_ex_pow31. cbn [length r_ex_lines]. lia.
+Qed.
+
+(** One call under the clock that expires after table 1: tables 0 and 1 are processed, the call reports
+    remaining work, two tables can still shrink. Under the non-monotone clock the walk does not stop at
+    table 1 either way round: it stops after the first table with work at which the clock reads "expired". *)
+Example r_ex_one_call :
+  match w_shrink_timed r_ex_clock1 r_ex_world with
+  | Ok b s' => Some (b, shrinkable s', r_ex_caps s')
+  | Err _ _ => None
+  end = Some (true, 2, [(0, 1); (1, 1); (1, 4); (1, 4)]) /\
+  match w_shrink_timed r_ex_clock2 r_ex_world with
+  | Ok b s' => Some (b, shrinkable s', r_ex_caps s')
+  | Err _ _ => None
+  end = Some (true, 2, [(0, 1); (1, 1); (1, 4); (1, 4)]) /\
+  match w_shrink_timed (fun j => Nat.leb 2 j) r_ex_world with
+  | Ok b s' => Some (b, shrinkable s', r_ex_caps s')
+  | Err _ _ => None
+  end = Some (true, 1, [(0, 1); (1, 1); (1, 1); (1, 4)]).
+Proof. vm_compute. repeat split. Qed.
+
+(** The loop of time-boxed calls, computed and by the theorem. *)
+Example r_ex_calls :
+  match shrink_calls [r_ex_clock1; fun _ => true; r_ex_clock2; fun _ => false] r_ex_world with
+  | Ok n s' => Some (n, shrinkable s', r_ex_caps s')
+  | Err _ _ => None
+  end = Some (2, 0, [(0, 1); (1, 1); (1, 1); (1, 1)]).
+Proof. vm_compute. reflexivity. Qed.
+
+Example r_ex_calls_by_theorem : forall c1 c2 c3 : nat -> bool,
+  exists n s', shrink_calls [c1; c2; c3] r_ex_world = Ok n s' /\ n <= 3 /\ shrinkable s' = 0 /\ St s' /\
+               is_locked s' = false /\ content_same r_ex_world s'.
+Proof.
+  intros c1 c2 c3. destruct r_ex_world_ok as (HSt & Hl & Hn & _).
+  destruct (shrink_converges_clocks_done [c1; c2; c3] r_ex_world HSt Hl) as (n & s' & E & N & R); [rewrite Hn; cbn; lia|].
+  exists n, s'. split; [exact E|]. split; [lia|exact R].
 Qed.
 
 (** *** The filter cache *)
